@@ -269,7 +269,13 @@ func (c *Collection) CreateIndex(indexName, columnName string, fn func(r Reader)
 	// Create and add the index column,
 	index := newIndex(indexName, columnName, fn)
 	c.lock.Lock()
-	index.Grow(uint32(c.opts.Capacity))
+	capacity := uint32(c.opts.Capacity)
+	if n := len(c.commits); n > 0 { // cover every chunk which was already allocated
+		if max := commit.Chunk(n - 1).Max(); max > capacity {
+			capacity = max
+		}
+	}
+	index.Grow(capacity)
 	c.cols.Store(indexName, index)
 	c.cols.Store(columnName, column, index)
 	c.lock.Unlock()
